@@ -84,8 +84,11 @@ class World:
                 def inv(ob, n=n):
                     raise Invalid(n)
                 # the tagged-data protocol used by taggedValue()/invariant()
+                # 'z' is a tag whose VALUE is None, 'f' one whose value is
+                # falsy: defined is defined
                 attrs['__interface_tagged_values__'] = {
-                    't': n, 'u%d' % n: n, 'invariants': [inv]}
+                    't': n, 'u%d' % n: n, 'invariants': [inv],
+                    'z': None, 'f': 0 if n % 2 else ''}
             else:
                 attrs['__interface_tagged_values__'] = {'u%d' % n: n}
             self.kind[n] = 'iface'
@@ -110,6 +113,47 @@ class World:
         s = Declaration()
         s.__bases__ = b
         return s
+
+    def observe(self):
+        """C15: subscribe an observer to every interface that, when it is
+        told the interface changed, checks that the accessors of THAT
+        interface agree with each other at that very moment (its own
+        changed() has completed by then)"""
+        w = self
+
+        class Observer:
+            def __init__(self, n):
+                self.n = n
+
+            def changed(self, originally_changed):
+                I = w.obj[self.n]
+                first = None
+                for J in I.__iro__:
+                    if 'a' in J.names():
+                        first = J
+                        break
+                d = I.get('a')
+                got = None if d is None else d.interface
+                names_has = 'a' in I.names(all=True)
+                nad = dict(I.namesAndDescriptions(all=True)).get('a')
+                nadi = None if nad is None else nad.interface
+                if got is not first or names_has != (first is not None) \
+                        or nadi is not first:
+                    mism({'during': 'changed() notification of I%d' % self.n,
+                          'iro': [w.ident(x) for x in I.__iro__]},
+                         "accessors of I%d disagree while its dependents are "
+                         "being notified" % self.n,
+                         None if first is None else w.ident(first),
+                         {'get': None if got is None else w.ident(got),
+                          'names(all)': names_has,
+                          'namesAndDescriptions(all)':
+                          None if nadi is None else w.ident(nadi)})
+        self.observers = []
+        for n, k in self.kind.items():
+            if k == 'iface':
+                o = Observer(n)
+                self.observers.append(o)
+                self.obj[n].subscribe(o)
 
     def ident(self, spec):
         for k, v in self.obj.items():
@@ -300,7 +344,27 @@ def check_accessors(w, n, I, owner, invs, sro, ctx):
         mism(ctx, "I%d.getTaggedValue('t')" % n, owner, g)
     etags = set('u%d' % m for m in ifaces)
     if owner != -1:
-        etags |= {'t', 'invariants'}
+        etags |= {'t', 'invariants', 'z', 'f'}
+    for tag, expv in (('z', None), ('f', (0 if owner % 2 else '')
+                                    if owner != -1 else None)):
+        missing = object()
+        g = I.queryTaggedValue(tag, missing)
+        if owner == -1:
+            if g is not missing:
+                mism(ctx, "I%d.queryTaggedValue(%r) of an undefined tag" % (
+                    n, tag), 'the default', repr(g))
+        elif g is missing or g != expv or type(g) is not type(expv):
+            mism(ctx, "I%d.queryTaggedValue(%r) (defined by I%d with a "
+                 "None / falsy value)" % (n, tag, owner), repr(expv),
+                 'the default' if g is missing else repr(g))
+        try:
+            I.getTaggedValue(tag)
+            raised = False
+        except KeyError:
+            raised = True
+        if raised != (owner == -1):
+            mism(ctx, "I%d.getTaggedValue(%r) raises KeyError" % (n, tag),
+                 owner == -1, raised)
     g = set(I.getTaggedValueTags())
     if g != etags:
         mism(ctx, 'I%d.getTaggedValueTags()' % n, sorted(etags), sorted(g))
@@ -379,6 +443,8 @@ def run_dag_case(case):
 def run_hist_case(case):
     global evaluations
     w = World(case['defA'])
+    if 'C15' in PROPS and not TWIN:
+        w.observe()
     steps = case['steps']
     trail = []
     for si, st in enumerate(steps):
